@@ -13,6 +13,7 @@ import os, re, sys, json, random, shutil, subprocess, argparse, threading, queue
 
 ROOT = os.path.dirname(os.path.dirname(os.path.abspath(__file__)))
 SRC = "rust/src"
+LANGNAME = "rust"
 FILE_PROPS = {
     "insert_operations.rs": ["C04", "C01", "C06", "C11"],
     "delete_operations.rs": ["C04", "C01", "C06", "C11"],
@@ -34,6 +35,48 @@ OPS = [
 ]
 
 
+LANG = {
+    "rust": dict(src="rust/src", files=None),
+    "py": dict(src="python/bplustree", files={"bplus_tree.py": ["C07", "C08", "C09"]}),
+    "c": dict(src="python/bplustree_c_src", files={"node_ops.c": ["C12", "C13"], "tree_ops.c": ["C12", "C13"],
+                                                     "bplustree_module.c": ["C12", "C13"]}),
+}
+OPS_PY = [
+    (r" <= ", " < "), (r" < ", " <= "), (r" >= ", " > "), (r" > ", " >= "), (r" == ", " != "), (r" != ", " == "),
+    (r" \+ 1\b", ""), (r" - 1\b", ""), (r" and ", " or "), (r" or ", " and "), (r"\bTrue\b", "False"), (r"\bFalse\b", "True"),
+    (r" // 2\b", " // 2 + 1"), (r" is None\b", " is not None"), (r" is not None\b", " is None"), (r"\bnot ", ""),
+    (r"\[0\]", "[-1]"), (r"\[-1\]", "[0]"), (r"bisect_left", "bisect_right"), (r"bisect_right", "bisect_left"),
+    (r"\.pop\(0\)", ".pop()"), (r"\.pop\(\)", ".pop(0)"), (r"\.insert\(0, ", ".append("),
+]
+OPS_C = [
+    (r" <= ", " < "), (r" < ", " <= "), (r" >= ", " > "), (r" > ", " >= "), (r" == ", " != "), (r" != ", " == "),
+    (r" \+ 1\b", ""), (r" - 1\b", ""), (r" && ", " || "), (r" \|\| ", " && "), (r" / 2\b", " / 2 + 1"),
+    (r"\+\+", "--"), (r"Py_INCREF\(([a-z_]+)\);", ""), (r"Py_DECREF\(([a-z_>\-]+)\);", ""), (r"Py_XDECREF\(([^;]*)\);", ""),
+    (r"\bNULL\b", "(void*)1") ,
+]
+
+
+def code_lines_generic(path, lang):
+    out = []
+    incomment = False
+    for i, l in enumerate(open(path).read().split("\n")):
+        s = l.strip()
+        if lang == "py":
+            if s.startswith("#") or s.startswith('"""') or not s or s.startswith("raise ") or "print(" in s:
+                continue
+        else:
+            if "/*" in s and "*/" not in s:
+                incomment = True
+            if incomment:
+                if "*/" in s:
+                    incomment = False
+                continue
+            if not s or s.startswith("//") or s.startswith("/*") or s.startswith("#") or s.startswith("*") or "VERIF" in s or "verif_" in s:
+                continue
+        out.append((i, l))
+    return out
+
+
 def code_lines(path):
     """(line number, text) of non-comment lines before the first #[cfg(test)]"""
     out = []
@@ -48,13 +91,13 @@ def code_lines(path):
     return out
 
 
-def mutants(files, rng, limit):
+def mutants(files, rng, limit, lang="rust"):
     ms = []
     for f in files:
         p = os.path.join("/repo", SRC, f)
-        for (i, l) in code_lines(p):
-            code = l.split("//")[0]
-            for (pat, rep) in OPS:
+        for (i, l) in (code_lines(p) if lang == "rust" else code_lines_generic(p, lang)):
+            code = l.split("//")[0] if lang != "py" else l.split("  #")[0]
+            for (pat, rep) in (OPS if lang == "rust" else OPS_PY if lang == "py" else OPS_C):
                 for m in re.finditer(pat, code):
                     # skip generics / lifetimes / arrows
                     ctx = code[max(0, m.start() - 2):m.end() + 2]
@@ -103,10 +146,22 @@ class Lane:
         res = dict(m)
         res.pop("text")
         try:
-            rc, out = sh("CARGO_NET_OFFLINE=true cargo build --offline -q -p bplustree 2>&1 | tail -5", cwd=os.path.join(self.w, "rust"), timeout=600)
-            if "error" in out:
-                res["verdict"] = "does-not-compile"
-                return res
+            if LANGNAME == "rust":
+                rc, out = sh("CARGO_NET_OFFLINE=true cargo build --offline -q -p bplustree 2>&1 | tail -5", cwd=os.path.join(self.w, "rust"), timeout=600)
+                if "error" in out:
+                    res["verdict"] = "does-not-compile"
+                    return res
+            elif LANGNAME == "py":
+                rc, out = sh([sys.executable, "-c", "import ast,sys;ast.parse(open(sys.argv[1]).read())", path])
+                if rc != 0:
+                    res["verdict"] = "does-not-compile"
+                    return res
+            else:
+                rc, out = sh("gcc -fsyntax-only -std=gnu99 -I$(python3 -c \"import sysconfig;print(sysconfig.get_paths()['include'])\") -I. %s 2>&1 | grep -c error" % m["file"],
+                             cwd=os.path.join(self.w, SRC))
+                if out.strip() not in ("0", ""):
+                    res["verdict"] = "does-not-compile"
+                    return res
             for prop in FILE_PROPS[m["file"]]:
                 rc, out = sh(["./vp", "check", prop], cwd=self.v, timeout=1500)
                 if "nobuild" in out:
@@ -117,6 +172,9 @@ class Lane:
                     res["by"] = prop
                     res["how"] = "input" if "no-failing-input-found" not in out else "correspondence"
                     return res
+            if LANGNAME != "rust":
+                res["verdict"] = "ESCAPED"
+                return res
             # escaped the checks: do the crate's own tests kill it?
             rc, out = sh("CARGO_NET_OFFLINE=true cargo test --workspace --no-fail-fast --offline 2>&1 | grep -E '^test result|FAILED|panicked' | head -60",
                          cwd=os.path.join(self.w, "rust"), timeout=1800)
@@ -131,14 +189,23 @@ def main():
     ap = argparse.ArgumentParser()
     ap.add_argument("--lanes", type=int, default=3)
     ap.add_argument("--limit", type=int, default=120)
-    ap.add_argument("--files", default=",".join(FILE_PROPS))
+    ap.add_argument("--files", default="")
+    ap.add_argument("--lang", default="rust")
     ap.add_argument("--seed", type=int, default=1)
     ap.add_argument("--out", default=os.path.join(ROOT, "build", "mutsweep.json"))
     ap.add_argument("--rerun-escaped", default="", help="result file of an earlier sweep: re-run only its ESCAPED mutants")
     ap.add_argument("--props", default="", help="with --rerun-escaped: the checks to run (comma separated) instead of the per-file list")
     a = ap.parse_args()
+    global SRC, LANGNAME
+    LANGNAME = a.lang
+    SRC = LANG[a.lang]["src"]
+    if LANG[a.lang]["files"]:
+        FILE_PROPS.clear()
+        FILE_PROPS.update(LANG[a.lang]["files"])
+    if not a.files:
+        a.files = ",".join(FILE_PROPS)
     rng = random.Random(a.seed)
-    ms = mutants(a.files.split(","), rng, 0 if a.rerun_escaped else a.limit)
+    ms = mutants(a.files.split(","), rng, 0 if a.rerun_escaped else a.limit, a.lang)
     if a.rerun_escaped:
         esc = set((x["file"], x["line"], x["new"]) for x in json.load(open(a.rerun_escaped)) if x["verdict"] == "ESCAPED")
         ms = [m for m in ms if (m["file"], m["line"], m["new"]) in esc]
